@@ -252,7 +252,7 @@ def impl_shape(a: dict) -> dict:
 
 
 def run_shapes(tier: str, rnd, rep: Report, model: Model) -> None:
-    n = depth(tier, 500, 6000)
+    n = depth(tier, 500, 20000)
     shapes = [gen_axes(rnd) for _ in range(n)]
     shapes = [[("star", "batch"), ("const", "rgb", 3), ("expr", ("bin", "*", ("var", "a"), ("bin", "//", ("var", "b"), ("int", 2)))), ("expr", ("int", 4))]] + shapes
     rep.streams["whole_shapes"] = len(shapes)
@@ -301,7 +301,7 @@ def run_shapes(tier: str, rnd, rep: Report, model: Model) -> None:
 
 def run(tier: str, seed: int, rep: Report, model: Model) -> dict:
     rnd = rng_for("C18", seed)
-    n = depth(tier, 1500, 20000)
+    n = depth(tier, 1500, 50000)
     rep.rule = ("operator trees of depth <= 4 over VariableAxis a,b,c, plain ints, LiteralAxis, + - * // ** (exponent: small literal or variable), "
                 "Min, Max, ISqrt, Group, built by Python's own evaluation of generated source; 3 non-negative scopes each; distinct = distinct "
                 "source; non-trivial = at least two operators")
